@@ -133,7 +133,7 @@ mutual
     | .dtIso t => strOK t ∧ ∀ b, mstr t = some (.str b) →
         (enc (.arr [.int tDatetime, .arr [.str b]])).length < 4294967296
     | .record d vals => strOK d.name ∧ d.hash < 18446744073709551616 ∧ lookup reg d.name d.hash = some d ∧
-        vals.length ≤ d.fields.length + Gen.RESERVED_FIELDS.length ∧ vals.length < 4294967296 ∧ PVOKList reg vals ∧
+        vals.length ≤ d.slotCount + Gen.RESERVED_FIELDS.length ∧ vals.length < 4294967296 ∧ PVOKList reg vals ∧
         (∀ i vs, identM d = some i → toMList vals = some vs →
           (enc (.arr [.int tRecord, .arr [i, .arr vs]])).length < 4294967296)
     | .grouped name ms => strOK name ∧ ms.length < 4294967296 ∧ PVOKMembers reg ms ∧
@@ -330,7 +330,7 @@ theorem fromMList_ints (reg : Registry) (f : Nat) (fs : List Nat) :
     rw [fromMList_cons, ih, (fromM_leaf reg f).2.2.1]
 
 theorem fitValues_id (d : Desc) (vals : List RV)
-    (h : vals.length ≤ d.fields.length + Gen.RESERVED_FIELDS.length) : fitValues d vals = vals := by
+    (h : vals.length ≤ d.slotCount + Gen.RESERVED_FIELDS.length) : fitValues d vals = vals := by
   unfold fitValues
   rw [if_neg (by omega)]
 
